@@ -88,6 +88,41 @@ def mk_quotient(name, TL, at, D1, E1, TR, bt, D2, E2, desc, qtags=None):
                   pre=pre, claims=claims, splits=sign_splits, desc=desc, tags=dict({"op": "quotient"}, **(qtags or {})))
 
 
+def mk_elastic_divrem(name, D1, S1, E1, D2, S2, E2, opn):
+    """a / b and a % b on elastic_scaled_integer operands (divisor not wider than the dividend: the operand narrowing
+    of the elastic / and % operators is a C05 known finding)"""
+    o = "/" if opn == "div" else "%"
+    TL = "cnl::elastic_scaled_integer<%d, cnl::power<%d>, %s>" % (D1, E1, "int" if S1 else "unsigned")
+    TR = "cnl::elastic_scaled_integer<%d, cnl::power<%d>, %s>" % (D2, E2, "int" if S2 else "unsigned")
+    decl = "using {n}_Res = decltype(std::declval<%s>() %s std::declval<%s>());\n" % (TL, o, TR)
+    body = ("    auto r = verif::mk<%s>(a) %s verif::mk<%s>(b);\n    return static_cast<std::int64_t>(cnl::unwrap(r));") % (TL, o, TR)
+    consts = {"exp": "cnl::_impl::tag_of_t<{n}_Res>::exponent"}
+    eres = E1 - E2 if opn == "div" else E1
+
+    def pre(env):
+        a, b = env.a["a"], env.a["b"]
+        return X.And(X.ne(b, 0), a >= (-((1 << D1) - 1) if S1 else 0), a <= (1 << D1) - 1,
+                     b >= (-((1 << D2) - 1) if S2 else 0), b <= (1 << D2) - 1)
+
+    def claims(env, path):
+        if path.kind != "RET":
+            return [("unexpected-outcome", False)]
+        a, b = env.a["a"], env.a["b"]
+        r = env.ret(path)
+        cl = [("result-exponent", env.c["exp"] == eres)]
+        if opn == "div":
+            cl.append(("truncating-quotient", X.eq(r, X.tdiv(a, b))))
+        else:
+            cl += [("remainder", X.eq(r, X.trem(a, b))), ("remainder-magnitude", X.absv(r) < X.absv(b)),
+                   ("remainder-sign", X.Or(X.eq(r, 0), X.Iff(r < 0, a < 0)))]
+        return cl
+    return Kernel(name, [("a", "i32"), ("b", "i32")], "i64", body, decls=decl.replace("{n}", name),
+                  consts={k: v.replace("{n}", name) for k, v in consts.items()}, mode="int", W=72, alt_modes=("bv",), pre=pre,
+                  claims=claims, splits=sign_splits,
+                  desc="elastic_scaled<%d,%d,%s> %s elastic_scaled<%d,%d,%s>" % (D1, E1, "s" if S1 else "u", o, D2, E2, "s" if S2 else "u"),
+                  tags={"op": opn, "family": "elastic"})
+
+
 def kernels(opts):
     tier = opts["tier"]
     rng = random.Random("c02/%s/%s" % (opts["seed"], tier))
@@ -115,4 +150,10 @@ def kernels(opts):
         ks.append(mk_quotient("K%d" % len(ks), "cnl::elastic_scaled_integer<%d, cnl::power<%d>>" % (D1, E1), "i32", D1, E1,
                               "cnl::elastic_scaled_integer<%d, cnl::power<%d>>" % (D2, E2), "i32", D2, E2,
                               "quotient(elastic_scaled<%d>:%d, elastic_scaled<%d>:%d)" % (D1, E1, D2, E2)))
+    # elastic_scaled_integer / and % (always run): every signedness pairing, divisor digits <= dividend digits
+    for (D1, E1, D2, E2) in ((8, -4, 4, -2), (15, 0, 7, -3), (24, -8, 24, -8)):
+        for S1 in (1, 0):
+            for S2 in (1, 0):
+                for opn in ("div", "rem"):
+                    ks.append(mk_elastic_divrem("K%d" % len(ks), D1, S1, E1, D2, S2, E2, opn))
     return ks
